@@ -139,3 +139,13 @@ Definition build_struct (g : grid) (name : string) (inner_nodes ext : list strin
 Definition c15_case (steps : list nat) (xprev : vec) (P : lp) (mp : list mrow) (P2 : lp) (mp2 : list mrow) : list bool :=
   let m := fix_window steps xprev {| ap_lp := P; ap_map := mp |} in
   lp_close (ap_lp m) P2 ++ [map_close (ap_map m) mp2].
+
+(* ---------- C09 ---------- *)
+From EAO Require Import Rename.
+Definition assoc (l : list (string * string)) (s : string) : string :=
+  match find (fun p => String.eqb (fst p) s) l with Some p => snd p | None => s end.
+Definition lp_same (P1 P2 : lp) : list bool :=
+  [ list_eqb Qeq_bool (lp_c P1) (lp_c P2); list_eqb Qeq_bool (lp_l P1) (lp_l P2); list_eqb Qeq_bool (lp_u P1) (lp_u P2);
+    rows_close (nvars P1) (lp_rows P1) (lp_rows P2) ].
+Definition c09_case (la ln lv : list (string * string)) (P : lp) (mp : list mrow) (P2 : lp) (mp2 : list mrow) : list bool :=
+  lp_same P P2 ++ [map_close (rename_map (assoc la) (assoc ln) (assoc lv) mp) mp2].
